@@ -20,10 +20,12 @@ MODES = ["import_graph", "import"]
 TRUSTED_BASE = ["coqc 8.16.1 kernel (vm_compute for table lemmas and witnesses; no native_compute)",
                 "gen/extract_import.py (regenerates from build.rs / content.rs / types.rs / object/mod.rs / file.rs the tables the model runs on)",
                 "Extraction + ExtrOcamlBasic, ocamlfind ocamlopt 4.13.1, coq/driver/main.ml",
-                "harness pdfh (modes import_graph, import), tools/vplib, tools/oracle/graph.py + pdfwriter.py + codecs.py (spec side)",
+                "harness pdfh (modes import_graph, import; histories and cache configurations are executed on the real crate only — the model "
+                "receives the source graph after the updates), tools/vplib, tools/oracle/graph.py + pdfwriter.py + codecs.py (spec side)",
                 "typed cloning (XObject, ExtGState, forms' resources) is modelled by the clone of the dictionary form and tied by correspondence up to "
                 "renumbering and key order; Content::from_ops / CatalogBuilder::build / Storage::save are judged by the spec oracle only"]
-ASSUMPTIONS = ["the source resolver answers by object number (generation ignored) and stream bytes are what Resolve::stream_data returns (model parameter `fetch`)",
+ASSUMPTIONS = ["C20_reload_object / C20_reload_stream: Storage.Model.save succeeds (premise, as in C09_reload) and the source objects are in C04's storable domain within MAX_DEPTH",
+               "the source resolver answers by object number (generation ignored) and stream bytes are what Resolve::stream_data returns (model parameter `fetch`)",
                "Storage::promise / fulfill hand out consecutive ids from 1 and store one value per id (generated anchor import_first_id; correspondence compares ids exactly)"]
 RULE = ("import_graph: random object graphs of 1..14 objects (nested arrays/dictionaries/streams with data, shared objects, self loops and longer "
         "cycles, dangling references, repeated roots) written as files (classic table, xref stream, object streams) — judged for closure, equality "
@@ -32,7 +34,13 @@ RULE = ("import_graph: random object graphs of 1..14 objects (nested arrays/dict
         "indirect / shared resources and nested forms, ExtGStates direct and indirect, inherited boxes and resources, two-level page trees, content "
         "arrays, metadata and untyped page entries, planted cycles of eight kinds, object streams) x page subsets/orders with repetition, and the "
         "repository's sample files — judged by the page view, content tokens, every used resource's content, closure and single copy; "
-        "non-trivial = at least two source objects reachable; distinct by (mode, file, selection)")
+        "every case with a cache configuration (source / target / reload with or without object + stream caches) and, for about three "
+        "quarters of them, a history on the SOURCE before the import: pages rendered, images decoded (image_data / raw_image_data), fonts' "
+        "embedded data read, operations parsed, single streams decoded / read raw / loaded typed, objects updated but not saved (same value, "
+        "a touched dictionary, a new pending stream linked in) — the specification applies the updates to the source graph and requires the "
+        "reading steps to change nothing; filters: hex, a85, rle, lzw, flate, chains up to three, image codecs that stop the decode early "
+        "(dct, jpx behind ascii filters); stream data is judged by raw bytes + filter chain, and by the decoded bytes as far as decodable; "
+        "non-trivial = at least two source objects reachable; distinct by (mode, file, selection, configuration, history)")
 CASE_TIMEOUT = 30.0
 MODEL_TIMEOUT = 120.0
 
@@ -109,7 +117,14 @@ def rnd_page_history(rng, doc, sel, kind=None):
     npages = len(doc.pages)
     streams = [n for n, v in doc.objs.items() if isinstance(v, Stream)]
     tree = set([doc.root]) | set(n for n, v in doc.objs.items() if isinstance(v, dict) and v.get("Type") == Name("Pages"))
-    plain = [n for n, v in doc.objs.items() if n not in tree and isinstance(v, (dict, Stream))]
+    # resource dictionaries are read through the typed `Resources` (no catch-all field): an entry added to one is dropped by
+    # the typed layer (the C20-d / C15 class), so the update steps leave them alone
+    resdicts = set()
+    for v in doc.objs.values():
+        d = v.d if isinstance(v, Stream) else v
+        if isinstance(d, dict) and isinstance(d.get("Resources"), Ref):
+            resdicts.add(d["Resources"].num)
+    plain = [n for n, v in doc.objs.items() if n not in tree and n not in resdicts and isinstance(v, (dict, Stream))]
     pages = sorted(set(sel))
     steps = []
     if kind == "render":
@@ -623,7 +638,11 @@ def coverage_extra(cases, impl, model):
             if ":" in t and not t.startswith("witness:") and not t.startswith("corpus:"):
                 feats[t] = feats.get(t, 0) + 1
     errs = sum(1 for c, r in zip(cases, impl) if r and r[0] == "ERR" and c.mode == "import" and "malformed" not in c.tags)
+    hist_panics = sum(1 for c, r in zip(cases, impl) if r and r[0] == "ERR" and "history:panic" in r[1])
+    cached_hist = sum(1 for c in cases if any(t.startswith("cfg:c") for t in c.tags) and not any(t == "hist:none" for t in c.tags)
+                      and any(t.startswith("hist:") for t in c.tags))
     return {"generator_features": dict(sorted(feats.items())), "imports_ending_in_error": errs,
+            "histories_on_cached_sources": cached_hist, "histories_that_panicked_before_the_import": hist_panics,
             "workarounds": ["single revision, no bytes before the header", "only dictionaries in object streams",
                             "images state /ImageMask and /Interpolate explicitly; DeviceGray images rare (ColorSpace::to_primitive unimplemented)",
                             "no inherited /Rotate (Page::rotate is not inherited by the reader)", "content-array parts end with white-space",
